@@ -40,7 +40,7 @@ import (
 //          verdict on the probe tube has been executed — closed (EOF) or handed to a handler.
 // Commands are never really executed: thunks.StartCmd runs /bin/true instead.
 
-const e2eWait = 20 * time.Second
+const e2eWait = 10 * time.Second
 
 type chain struct {
 	leafKey        *keys.X25519KeyPair
@@ -257,6 +257,9 @@ func runE2E(in *bufio.Scanner, out *bufio.Writer) {
 		return &ent, err
 	}
 	var w *e2eWorld
+	// once an operation of a case ran into the watchdog the session is stuck (e.g. a second started
+	// command blocks in startCodex): the rest of the case is answered at once instead of waiting again
+	wedged := false
 	sockDir, _ = os.MkdirTemp("", "hv-c07-")
 	defer os.RemoveAll(sockDir)
 	okUser := func(u []byte) bool {
@@ -279,6 +282,9 @@ func runE2E(in *bufio.Scanner, out *bufio.Writer) {
 			if f[0] != "new" && w == nil {
 				w = newWorld()
 			}
+			if wedged && (f[0] == "exec" || f[0] == "tube" || f[0] == "login" || f[0] == "loginkey") {
+				return "wedged"
+			}
 			switch f[0] {
 			case "new":
 				if len(f) != 1 {
@@ -286,6 +292,7 @@ func runE2E(in *bufio.Scanner, out *bufio.Writer) {
 				}
 				w.close()
 				w = newWorld()
+				wedged = false
 				return "ok"
 			case "grant":
 				g, ok := parseGrant(f[1:])
@@ -367,6 +374,8 @@ func runE2E(in *bufio.Scanner, out *bufio.Writer) {
 					verdict = "started "
 				case "2":
 					verdict = "refused "
+				case "timeout":
+					wedged = true
 				}
 				return verdict + showGrants(w.kn, s.user, s.sv.AuthorizedActions())
 			case "tube":
@@ -401,6 +410,7 @@ func runE2E(in *bufio.Scanner, out *bufio.Writer) {
 					return "tube-err"
 				}
 				if st := readByte(fence, e2eWait); st != "eof" {
+					wedged = wedged || st == "timeout"
 					return "fence-" + st
 				}
 				st := readByte(probe, 400*time.Millisecond)
